@@ -676,6 +676,59 @@ theorem parse_int_literal (f : IntForm) (hf : f.valid = true) (n : Nat) :
     rw [h]; exact stripComments_single _ (by simp)
   unfold Parse.parse
   simp only [hs]
+  have hf : Parse.fuelFor (renderInt f n) = (32 * (renderInt f n).length + 44) + 20 := by
+    unfold Parse.fuelFor; omega
+  rw [hf]
+  generalize 32 * (renderInt f n).length + 44 = m
   rfl
+
+/-- tokens that are literals by themselves (format strings excluded: they are parsed further) -/
+def isPlainLitTok : Token → Bool
+  | .intLit _ => true | .ratLit _ => true | .floatLit _ => true | .imagLit _ => true
+  | .stringLit _ => true | .bytesLit _ => true
+  | _ => false
+
+/-- a token list consisting of one literal token parses, with any fuel ≥ 20 -/
+theorem parseTokens_single_literal (t : Token) (h : isPlainLitTok t = true) (m : Nat) :
+    Parse.parseTokens (m + 20) [t] = .ok := by
+  cases t <;> simp [isPlainLitTok] at h <;> rfl
+
+/-- `to_lvalue_no_literals` succeeds only where `to_lvalue` does -/
+theorem lvalueNoLitOk_imp_lvalueOk (e : Parse.PExpr) (h : Parse.lvalueNoLitOk e = true) : Parse.lvalueOk e = true := by
+  unfold Parse.lvalueNoLitOk at h
+  unfold Parse.lvalueOk
+  split at h
+  · rename_i i hi; simp [hi]
+  · simp at h
+
+/-- every literal syntax of section 2–4 is also a *program* for the parser model -/
+theorem parse_float_literal (l : FloatLit) (hwf : l.wf = true) : Parse.parse l.render = .ok := by
+  have h := float_token_text l hwf [] (floatStop_nil l)
+  rw [List.append_nil, lex_nil] at h
+  have hlit : isPlainLitTok (floatTok l) = true := by
+    unfold floatTok; split <;> rfl
+  have hs : (stripComments (lex l.render)).1 = [floatTok l] := by
+    rw [h]; apply stripComments_single; intro s hc; rw [hc] at hlit; cases hlit
+  unfold Parse.parse
+  rw [hs]
+  have hf : Parse.fuelFor l.render = (32 * l.render.length + 44) + 20 := by
+    unfold Parse.fuelFor; omega
+  rw [hf]
+  exact parseTokens_single_literal _ hlit _
+
+theorem parse_string_literal (e : Char) (he : e = '\'' ∨ e = '"') (its : List StrItem) (hok : BodyOK e its)
+    (vs : List Nat) (hden : denoteBody its = some vs) :
+    Parse.parse (e :: renderBody its ++ [e]) = .ok := by
+  have h := string_escape_exact e he its hok vs hden []
+  rw [lex_nil] at h
+  have hs : (stripComments (lex (e :: renderBody its ++ [e]))).1 = [.stringLit (vs.map Char.ofNat)] := by
+    rw [h]; exact stripComments_single _ (by simp)
+  unfold Parse.parse
+  rw [hs]
+  have hf : Parse.fuelFor (e :: renderBody its ++ [e]) = (32 * (e :: renderBody its ++ [e]).length + 44) + 20 := by
+    unfold Parse.fuelFor; omega
+  rw [hf]
+  exact parseTokens_single_literal _ rfl _
+
 
 end Noulith.C15
